@@ -1,33 +1,36 @@
 import PandoraModel.Properties.C14
-open Pandora.C14 Pandora.C14.R Pandora.Interp
--- tie to the source (tables regenerated on every run)
+open Pandora.C14 Pandora.Interp
+-- tie to the source (tables regenerated on every run): directions, flag updates with the raising operator,
+-- constants, and the variant (guards of e1d31ca present)
 #print axioms source_dirs
 #print axioms source_flag_ops
 #print axioms source_constants
+#print axioms source_guarded
 -- kernels of the code against the notions of the specification
 #print axioms sub_add_eq_replaceBit
+#print axioms raise_sub_eq_replaceBit
 #print axioms ray_leaves_mc
 #print axioms ray_leaves_sgm
-#print axioms scanMc_eq
+#print axioms scanMc_nan_eq
+#print axioms scanMc_zero_eq
 #print axioms findValidNeighbors_eq
-#print axioms occlMcPixel_eq
+#print axioms occlMcCore_eq
 #print axioms occlusionSum3x3_ne_zero
 #print axioms median_between
 #print axioms secondLowestAbs_spec
--- the property
+-- the property: every guarded text of the kernels (+= or |=), instantiated at the variant read from the source
 #print axioms outcome
 #print axioms pixel_ok
-#print axioms spec_holds_partial
+#print axioms spec_holds
+#print axioms spec_holds_source
 #print axioms unflagged_untouched
 #print axioms filled_bits
 #print axioms border_bit0_only_mccnn
 #print axioms border_bit0_only
-#print axioms mccnn_occlusion_full
--- the code with proposed_fixes/C14-fill-from-nothing.diff applied (Model/InterpRepaired.lean): full strength
-#print axioms spec_holds_repaired
--- the full-strength statement is false of the code: counterexamples (replayed from corpus/C14)
+-- the same statement is false of the earlier texts of the kernels (repaired findings; inputs in corpus/C14)
 #print axioms mccnn_mismatch_nan_counterexample
 #print axioms mccnn_mismatch_zero_counterexample
 #print axioms sgm_mismatch_nan_counterexample
 #print axioms sgm_occlusion_nan_counterexample
-#print axioms stale_filled_bit_counterexample
+#print axioms stale_filled_bit_add_counterexample
+#print axioms stale_filled_bit_or_ok
